@@ -1,13 +1,16 @@
 #!/bin/bash
-# mutants_all.sh <budget>: run every seeded change against the check(s) of its property; write seeded/<id>/detect.txt
-B=${1:-15}
-cd /verif
-for d in seeded/*/; do
+# mutants_all.sh [budget] [id-glob]: run every seeded change (or those matching the glob) against the check(s)
+# of its property; write seeded/<id>/detect.txt. Uses /repo itself: nothing else may touch /repo meanwhile.
+B=${1:-15}; G=${2:-*}
+cd "$(dirname "$0")/.."
+V=$(pwd)
+for d in $V/seeded/$G/; do
+  [ -f $d/patch.diff ] || continue
   id=$(basename $d); prop=${id%%-*}
   props=$prop
   case $id in
-    C05-m2) props="C05 C02";; C13-m2) props="C13";; C18-m2) props="C18 C05";; C20-m1) props="C20";;
+    C05-m2) props="C05 C02";; C18-m2) props="C18 C05";; C02-m4) props="C02 C05";; C05-m4) props="C05 C02";; C20-m3) props="C20 C04";;
   esac
-  /verif/tools/run_mutant.sh $id $B $props > $d/detect.txt 2>&1
+  $V/tools/run_mutant.sh $id $B $props > $d/detect.txt 2>&1
   echo "$id: $(grep -c 'exit=1' $d/detect.txt) of $(echo $props | wc -w) checks fired"
 done
